@@ -88,6 +88,7 @@ Proof.
     destruct (reserve V d p id n) as [[d1 p1]|] eqn:E; cbn; [eapply reserve_tracks; eassumption|tr].
   - destruct (find_res id (p_res p)); [tr|].
     destruct (find_res parent (p_res p)); [|tr].
+    destruct (off <? 0); [tr|].
     destruct (_ <? 0); [tr|]. destruct (negb _); [tr|].
     destruct (_ <? 0); [tr|]. cbn. tr.
   - destruct (find_res id (p_res p)); cbn; tr.
